@@ -578,23 +578,29 @@ Proof.
   unfold bytes_intact_stmt. intros [_ [_ [H _]]]. vm_compute in H. specialize (H eq_refl). discriminate.
 Qed.
 
-(* F6: partial TLS record, the rest later than the sniff window *)
+(* the sniff window expiring leaves no error behind in the reader (repaired in 9ef4b71) *)
+Lemma sniff_rounds_no_timeout : forall answers dl buf c s now buf' derr c' s' t spin,
+  sniff_rounds answers dl buf c s now = (buf', derr, c', s', t, spin) ->
+  derr <> Some ETimeout /\ derr <> Some EEof.
+Proof.
+  induction answers as [|[more room] rest IH]; intros dl buf c s now buf' derr c' s' t spin H; cbn [sniff_rounds] in H.
+  - inversion H; subst. split; discriminate.
+  - destruct (conn_read c room (set_dl s (Some dl)) now) as [[[r c2] s2] t2] eqn:E.
+    destruct (r_err r) as [e|].
+    + destruct e; [destruct (nonempty (buf ++ r_data r) && more)| | |]; inversion H; subst; split; discriminate.
+    + destruct more.
+      * eapply IH; eauto.
+      * inversion H; subst. split; discriminate.
+Qed.
+
 Definition w_tls_part : list N := [22;3;1;2;0;1;0].
 Definition w_client_tls : side := mkSide [mkChunk 0 w_tls_part; mkChunk 1500 [9;9;9]] (Some 3000).
 Definition w_psniff : pcase := mkP false true 1000 DnsErr [(true, 4096)].
 
-Definition no_sticky_error_stmt (p : pcase) (s0 : sock) : Prop :=
-  match ps_conn (prologue p s0 0) with
-  | Some (CSniffer _ (Some _) _) => False
-  | _ => True
-  end.
-
-Lemma no_sticky_error_refuted_proof : exists p s0, ~ no_sticky_error_stmt p s0.
-Proof. exists w_psniff, (mk_sock w_client_tls). unfold no_sticky_error_stmt. vm_compute. tauto. Qed.
-
-Lemma sticky_error_cuts_proof :
+(* partial TLS record, the rest later than the sniff window: relayed in full, both ends of stream honoured *)
+Lemma sniff_timeout_harmless_example :
   let o := connection w_psniff c05_half_close_ms false true w_client_tls w_server in
-  o_up o = w_tls_part /\ o_err o = true /\ o_end o = 1000.
+  o_start o = 1000 /\ o_dl_at_start o = None /\ o_up o = w_tls_part ++ [9;9;9] /\ o_up_shut o = true /\ o_err o = false.
 Proof. vm_compute. repeat split. Qed.
 
 (* half-close towards the client through a wrapper: the server's end of stream is not passed on *)
